@@ -514,13 +514,55 @@ def not_forwarded(repo, col, prop):
     for fi in repo.all_functions():
         if (fi.file, fi.qual) not in sc or fi.file in SKIP_FILES:
             continue
-        held = set(fi.params) | {x.arg for x in fi.node.args.kwonlyargs}
+        held_params = set(fi.params) | {x.arg for x in fi.node.args.kwonlyargs}
+        assigned = {}   # local name -> the assignments that bind it
         for node in ast.walk(fi.node):
             if isinstance(node, ast.Assign):
                 for t in node.targets:
                     for x in ast.walk(t):
                         if isinstance(x, ast.Name):
-                            held.add(x.id)
+                            assigned.setdefault(x.id, []).append(node)
+        parent = {}
+        for node in ast.walk(fi.node):
+            for fld, val in ast.iter_fields(node):
+                for ch in (val if isinstance(val, list) else [val]):
+                    if isinstance(ch, ast.AST):
+                        parent[id(ch)] = (node, fld)
+
+        def arms(node):
+            """the (if-statement, arm) pairs a node sits in"""
+            out = {}
+            cur = node
+            while id(cur) in parent:
+                par, fld = parent[id(cur)]
+                if isinstance(par, ast.If) and fld in ("body", "orelse"):
+                    out[id(par)] = fld
+                cur = par
+            return out
+
+        def in_loop(node):
+            cur = node
+            while id(cur) in parent:
+                cur = parent[id(cur)][0]
+                if isinstance(cur, (ast.For, ast.While)):
+                    return True
+            return False
+
+        def holds(name, call):
+            """the caller holds a value under `name` when the call runs: a parameter, or a local bound by an assignment that can
+            run before the call -- not one in the other arm of an if the call sits in, and not one that only comes later"""
+            if name in held_params:
+                return True
+            ca = arms(call)
+            for a_ in assigned.get(name, ()):
+                aa = arms(a_)
+                if any(k in ca and ca[k] != v for k, v in aa.items()):
+                    continue
+                if a_.lineno > call.lineno and not in_loop(call):
+                    continue
+                return True
+            return False
+        held = held_params | set(assigned)
         if fi.cls:
             # `nodes` / `edges` are the tables every module has; selection helpers take them as optional row filters
             held_attr = _self_attrs(repo, fi.cls) - {"nodes", "edges"}
@@ -540,6 +582,8 @@ def not_forwarded(repo, col, prop):
                 passed = set(names[:len(c.args)]) | {k.arg for k in c.keywords}
                 for p in sorted(with_def):
                     if p in passed or (p not in held and p not in held_attr):
+                        continue
+                    if p in held and p not in held_attr and not holds(p, c):
                         continue
                     n += 1
                     why = NOT_FORWARDED_OK.get((fi.qual, g.qual, p))
